@@ -72,6 +72,30 @@ let data_frame seed j chunks : n list list =
   hdr :: List.filter_map (fun l ->
     if l = 0 then None else begin let b = gen_bytes seed j !off l in off := !off + l; Some b end) chunks
 
+(* one buffer of the case line (same syntax as the harness): the chunk sequence WriteBuf presents *)
+let buffer_chunks seed j (spec : string) : n list list =
+  let chunks s = List.filter (fun l -> l > 0) (List.map int_of_string (String.split_on_char '.' s)) in
+  let vi v = match vi_encode v with Some e -> e | None -> failwith "varint" in
+  let payload cs = let off = ref 0 in
+    List.map (fun l -> let b = gen_bytes seed j !off l in off := !off + l; b) cs in
+  let total cs = n_of_int (List.fold_left (+) 0 cs) in
+  let rest = String.sub spec 1 (String.length spec - 1) in
+  match spec.[0] with
+  | 'h' -> let l = int_of_string rest in
+    (n_of_int 1 :: vi (n_of_int l)) :: (if l > 0 then [gen_bytes seed j 0 l] else [])
+  | 'y' -> [vi (n_of_string rest)]
+  | 't' -> (match String.index_opt rest ':' with
+      | Some i ->
+        let t = n_of_string (String.sub rest 0 i) and cs = chunks (String.sub rest (i + 1) (String.length rest - i - 1)) in
+        (vi t @ (N0 :: vi (total cs))) :: payload cs
+      | None -> failwith "typed buffer")
+  | _ -> let cs = chunks spec in (N0 :: vi (total cs)) :: payload cs
+let buffer_len spec = List.fold_left (+) 0
+    (List.map (fun x -> try int_of_string x with _ -> 0)
+       (String.split_on_char '.' (match String.index_opt spec ':' with
+            | Some i -> String.sub spec (i + 1) (String.length spec - i - 1)
+            | None -> if spec.[0] = 'h' || spec.[0] = 'y' then String.sub spec 1 (String.length spec - 1) else spec)))
+
 let marker : n list list = [ [N0; n_of_int 3]; [n_of_int 0xee; n_of_int 0xee; n_of_int 0xee] ]
 
 (* ------------------------------------------------------------------ qw *)
@@ -83,8 +107,8 @@ let run_qw t =
   let eff = max 1 (min win (gi t "cwin" (1 lsl 22))) in
   let fname, fcode, fat = parse_fault (gs t "fault" "none") in
   let fat_i = (try int_of_string fat with _ -> 0) in
-  let bufs = let b = gs t "bufs" "-" in
-    if b = "-" then [] else List.map (fun x -> List.map int_of_string (String.split_on_char '.' x)) (String.split_on_char ',' b) in
+  let bufs = let b = gs t "bufs" "-" in if b = "-" then [] else String.split_on_char ',' b in
+  let ps_len = gopt t "ps" in
   let id = stream_id role kind skip true in
   let s = ref (send_new (qsend_new id)) in
   let ids = ref [] in
@@ -102,7 +126,7 @@ let run_qw t =
       if (fname = "areset" || fname = "lclose") && !sent >= fat_i then stop := true
       else begin
         q 0;
-        let frame = data_frame seed j chunks in
+        let frame = buffer_chunks seed j chunks in
         (match send_data frame !s with
          | (Ok _, s') -> s := s'
          | (r, s') -> s := s'; res := res_unit r ^ "@send"; stop := true);
@@ -116,7 +140,7 @@ let run_qw t =
           end;
           (* the oracle for this buffer: blocked first, then pieces of at most `step` bytes with a block
              after each; a failure once the fault point has been passed *)
-          let total = List.fold_left (+) 0 chunks + 9 in
+          let total = buffer_len chunks + 17 in
           let step = max 1 (max win (total / 12)) in
           let first_pending = ref true in
           let finished = ref false in
@@ -156,11 +180,29 @@ let run_qw t =
       end
     end) bufs;
   q 3;
+  let ps_out = ref "-" in
+  let ps_bytes = match ps_len with Some n when fname = "none" -> gen_bytes seed 1000 0 n | _ -> [] in
+  (match ps_len with
+   | Some n when fname = "none" && !res = "ok" ->
+     ps_out := "ok";
+     let buf = ref (if n > 0 then [ps_bytes] else []) in
+     let step = max 1 (max win (n / 12)) in
+     let guard = ref 0 in
+     while !ps_out = "ok" && List.concat !buf <> [] do
+       incr guard; if !guard > 100000 then failwith "model poll_send loop";
+       let before = List.length (List.concat !buf) in
+       (match poll_send [WAccept (n_of_int step)] !buf !s with
+        | (((Ready (Ok k), s'), b'), _) -> s := s'; buf := b';
+          if before - List.length (List.concat b') <> int_of_n k then ps_out := "BADCOUNT"
+        | (((Ready r, _), _), _) -> ps_out := (match r with Err e -> "err:" ^ stream_class e | _ -> "PANIC")
+        | (((Pending, _), _), _) -> ())
+     done
+   | _ -> ());
   let end_ = ref "open" in
   (match fname with
    | "none" -> if !res = "ok" then (match poll_fin () with Ok _ -> () | r -> res := "finerr:" ^ res_unit r)
    | "afin" -> fin2 := Some (res_unit (poll_fin ()))
-   | "areset" -> (match send_reset fcode !s with (Ok _, s') -> s := s' | _ -> failwith "reset panics")
+   | "areset" -> (match send_reset fcode !s with (Ok _, s') -> s := s' | _ -> res := "PANIC-reset")
    | "lclose" ->
      (match conn_close fcode with Ok c -> end_ := "close:" ^ string_of_n c | _ -> end_ := "PANIC");
      let r = (match send_data marker !s with
@@ -181,25 +223,26 @@ let run_qw t =
        | None -> if qs.qs_finished then end_ := "fin"));
   let rid = if kind = "uni" then "-" else
       (match bidi_new id with Ok b -> (match recv_id b.b_recv with Ok i -> string_of_n i | _ -> "PANIC") | _ -> "PANIC") in
-  let model = Printf.sprintf "ok res=%s recv=%s pfx=ok end=%s ids=%s pid=%s rid=%s dbl=%s dblp=%s%s"
-      !res (digest qs.qs_log) !end_ (show_ids (List.rev !ids)) (string_of_n qs.qs_id) rid !dbl_out !dblp_out
+  let model = Printf.sprintf "ok res=%s recv=%s pfx=ok end=%s ids=%s pid=%s rid=%s dbl=%s dblp=%s ps=%s%s"
+      !res (digest qs.qs_log) !end_ (show_ids (List.rev !ids)) (string_of_n qs.qs_id) rid !dbl_out !dblp_out !ps_out
       (match !fin2 with Some f -> " fin2=" ^ f | None -> "") in
   (* ---- specification line *)
   let sres = match fname with
     | "none" | "areset" -> "ok"
     | _ -> (match spec_write_fault (fault_of fname fcode) with Some e -> "err:" ^ stream_class e | None -> "ok") in
   let srecv = if fname = "none" then
-      digest (spec_handed (List.mapi (fun j chunks -> EvAccepted (data_frame seed j chunks)) bufs))
+      digest (spec_handed (List.mapi (fun j chunks -> EvAccepted (buffer_chunks seed j chunks)) bufs) @ ps_bytes)
     else "*" in
   let send_ = match fname with
     | "none" | "afin" -> "fin" | "stop" -> "stopped" | "close" -> "closed"
     | "areset" -> "reset:" ^ string_of_n (spec_reset_code fcode)
     | "lclose" -> "close:" ^ string_of_n fcode | _ -> "*" in
   let sid = string_of_n id in
-  let spec = Printf.sprintf "ok res=%s recv=%s pfx=ok end=%s ids=%s pid=%s rid=%s dbl=%s dblp=%s%s"
+  let spec = Printf.sprintf "ok res=%s recv=%s pfx=ok end=%s ids=%s pid=%s rid=%s dbl=%s dblp=%s ps=%s%s"
       sres srecv send_ (if !ids = [] then "-" else sid) sid (if kind = "uni" then "-" else sid)
       (if dbl <> None && (match dbl with Some j -> j < List.length bufs | None -> false) && !dbl_out <> "-" then "refused:" ^ stream_class spec_refusal else "-")
       (if !dblp_out <> "-" then "refused:" ^ stream_class spec_refusal else "-")
+      (if !ps_out = "-" then "-" else "ok")
       (match !fin2 with Some _ -> " fin2=err:unknown" | None -> "") in
   model ^ " | " ^ spec
 
@@ -288,8 +331,10 @@ let run_qr t =
       | Pending -> ()
     end) answers;
   q 5;
-  let und = match underlying !r with Some u -> u | None -> failwith "stream lost" in
-  let pstop = match und.qr_stops with
+  (* (a model following a mutated source may have lost the stream: still print a line) *)
+  let lost = (underlying !r = None) in
+  let und = match underlying !r with Some u -> u | None -> qrecv_new (!r).r_id in
+  let pstop = if lost then "LOST" else match und.qr_stops with
     | c :: _ -> string_of_n c
     | [] -> if fname = "fin" then "none" else "-" in
   let pclose = if fname = "lclose" then (match conn_close fcode with Ok c -> string_of_n c | _ -> "PANIC") else "-" in
